@@ -183,6 +183,7 @@ extern "C" int LLVMFuzzerTestOneInput(const uint8_t* data, size_t size) {
     Model model;
     std::vector<ref::Pos> goPos;
     bool engineMade = false, sawPosition = false, sawSetoption = false, sawOther = false;
+    size_t wantReadyok = 0, wantUciok = 0;
     size_t start = 0;
     int lines = 0;
     while (start <= in.size() && lines < 400) {
@@ -209,7 +210,8 @@ extern "C" int LLVMFuzzerTestOneInput(const uint8_t* data, size_t size) {
         }
         if (cmd == "position") { modelPosition(tok, model); sawPosition = true; script += line + "\n"; continue; }
         if (cmd == "setoption") { script += rewriteSetoption(tok, line) + "\n"; engineMade = true; sawSetoption = true; continue; }
-        if (cmd == "isready") engineMade = true;
+        if (cmd == "isready") { engineMade = true; wantReadyok++; }
+        if (cmd == "uci") wantUciok++;
         if (cmd == "ponderhit" && noEarlyPonderhit && !engineMade) { fz::cls("early ponderhit dropped (switch)"); continue; }
         if (cmd != "uci" && cmd != "isready" && cmd != "ucinewgame" && cmd != "stop" && cmd != "ponderhit" && cmd != "quit") sawOther = true;
         script += line + "\n";
@@ -227,14 +229,22 @@ extern "C" int LLVMFuzzerTestOneInput(const uint8_t* data, size_t size) {
     std::cin.clear();
     // judge the output
     std::vector<std::string> best;
+    size_t gotReadyok = 0, gotUciok = 0;
     {
         std::istringstream os(oss.str());
         std::string l;
         while (std::getline(os, l)) {
             std::vector<std::string> t = split(l);
             if (!t.empty() && t[0] == "bestmove") best.push_back(t.size() > 1 ? t[1] : "");
+            if (l == "readyok") gotReadyok++;
+            if (l == "uciok") gotUciok++;
         }
     }
+    // the tokenizer splits at white space: every line whose first word is isready/uci is answered once
+    if (gotReadyok != wantReadyok)
+        fz::oracleFail(std::to_string(wantReadyok) + " isready line(s) but " + std::to_string(gotReadyok) + " readyok; script:\n" + script, data, size);
+    if (gotUciok != wantUciok)
+        fz::oracleFail(std::to_string(wantUciok) + " uci line(s) but " + std::to_string(gotUciok) + " uciok; script:\n" + script, data, size);
     if (best.size() != goPos.size()) {
         fz::oracleFail("forwarded " + std::to_string(goPos.size()) + " go command(s) but saw " + std::to_string(best.size()) + " bestmove line(s); script:\n" + script, data, size);
     }
